@@ -65,6 +65,8 @@ def judge(kind, sess, o, probe_view):
         return out
     if flags.get("two_reads_outstanding") or flags.get("max_outstanding", 0) > 1:
         out.append(("two_receive_paths", {}, "more than one read outstanding at a loop boundary"))
+    if flags.get("callbacks_overlap"):
+        out.append(("two_receive_paths", {"overlap": True}, f"a receive callback was started while another was still running ({flags['callbacks_overlap']} times): two consumers"))
     names = [n for _, n in o.status]
     if any(x == y for x, y in zip(names, names[1:])):
         out.append(("status_repeated", {}, f"status trace {names}"))
